@@ -138,6 +138,8 @@ func c19Run(c *Ctx) {
 				func() bool { fl.Apply(); s, _, _, _, _ := c19Eval(line); return s != "" })
 		}
 	}
+	// already redacted lines of every length are reproduced by the real line reader; lines that grow in pass 1
+	streamLenSweep(c, "C19", []string{"fixed-point", "array-pad"}, Flags{})
 	sweep(c, layers, func(sc *sweepCase) bool {
 		if sc.C.Root.HasDup() {
 			return false
